@@ -816,7 +816,7 @@ func execute(cfg *config, ops []op, st *stats) (f *failure) {
 		curOp, curKind = o.Op, l.kind
 		switch o.Op {
 		case opInsert:
-			if g := withFault(o, l, func(ctx context.Context) error { return l.kv.Insert(ctx, o.k, o.v) }); g != nil {
+			if g := withFault(o, l, func(ctx context.Context) error { return l.kv.Insert(ctx, o.k, nilIfEmpty(o.k, o.v)) }); g != nil {
 				return g
 			}
 			if len(layers) > 1 && layers[len(layers)-2].model.Has(o.k) && st != nil {
@@ -1241,4 +1241,13 @@ func replay(file string) {
 	run.Nontrivial("replay-1")
 	run.Nontrivial("replay-2")
 	run.Finish(0)
+}
+
+// nilIfEmpty passes an empty value as a NIL slice for the keys of even length: Insert documents a nil
+// value as the empty value, so the model is unchanged (a function of the key, no PRNG draw).
+func nilIfEmpty(k, v []byte) []byte {
+	if v != nil && len(v) == 0 && len(k)%2 == 0 {
+		return nil
+	}
+	return v
 }
